@@ -11,7 +11,7 @@
 #include <string.h>
 
 #define V_MAX_TOK 64
-#define V_LINE_MAX (1 << 20)
+#define V_LINE_MAX (1 << 26)
 
 static char v_line[V_LINE_MAX];
 
